@@ -13,6 +13,6 @@ def render_sticky_note(model: StickyNote) -> str:
 
     text = indent(text, '    ')
     # a name that is not a single word only parses back when quoted
-    name = model.name if re.fullmatch(r'\w+', str(model.name)) else f'"{model.name}"'
+    name = model.name if re.fullmatch(r'[A-Za-z0-9_]+', str(model.name)) else f'"{model.name}"'
     result = f'Note {name} {{\n{text}\n}}'
     return result
